@@ -46,6 +46,8 @@ func (n *gNode) String() string {
 		fmt.Fprintf(&sb, "%s(%d){%s}", n.Op, n.N, gBody(n.Body))
 	case "Range":
 		fmt.Fprintf(&sb, "Range(%d,%d){%s}", n.Pos, n.N, gBody(n.Body))
+	case "Format":
+		fmt.Fprintf(&sb, "Format(%s,arr=%v){%s}", n.Name, n.Arr, gBody(n.Body))
 	case "FormatLen":
 		fmt.Fprintf(&sb, "FormatLen(%s,%d,arr=%v){%s}", n.Name, n.N, n.Arr, gBody(n.Body))
 	case "FormatRange":
@@ -80,6 +82,8 @@ type eVal struct {
 	IsRoot   bool
 	GapScope bool  // produced by decode() with gap filling: range must be the window
 	Win      int64 // window length of a gap scope
+	FmtSub   bool  // produced by FieldFormat: a sub-decode to the end of the buffer WITHOUT gap filling
+	Adv      int64 // FmtSub: how far the parent's position advanced (extent of what the sub-decode touched)
 	Uval     uint64
 	Sval     int64
 	Children []*eVal
@@ -200,6 +204,26 @@ func (r *gRef) exec(n *gNode) {
 		if n.Op == "FormatLen" {
 			r.pos += n.N
 		}
+	case "Format":
+		// FieldFormat: decode() over [pos, end of the current buffer) with FillGaps off; on success the parent's
+		// position advances by the extent of the sub-decode: the maximum over its values (not descending into
+		// nested roots) of: stop of a leaf, creation position of a struct/array (compound ranges are only
+		// computed at the very end), start+window of a gap-filled sub-decode, start+advance of a nested FieldFormat
+		first := r.pos
+		kind := "struct"
+		if n.Arr {
+			kind = "array"
+		}
+		sub := &eVal{Name: n.Name, Kind: kind, Start: 0, FmtSub: true}
+		sr := &gRef{buf: r.buf.slice(first, r.limit-first), limit: r.limit - first, cur: sub, ops: r.ops}
+		if !sr.try(n.Body) {
+			panic(gFail{}) // a failed sub-decode is not added and fails the parent
+		}
+		sub.Adv = gExtent(sub)
+		gShift(sub, first)
+		sub.Start = first
+		r.add(sub)
+		r.pos += sub.Adv
 	case "FormatBitBuf", "RootBitBuf":
 		if r.pos%8 != 0 && false {
 			panic(gFail{})
@@ -232,6 +256,32 @@ func (r *gRef) exec(n *gNode) {
 	case "Fatal":
 		panic(gFail{})
 	}
+}
+
+// gExtent: see "Format" above; positions relative to the sub-decode's window (called before gShift/gFinish)
+func gExtent(sub *eVal) int64 {
+	var ext int64
+	var walk func(v *eVal)
+	walk = func(v *eVal) {
+		for _, c := range v.Children {
+			if c.IsRoot {
+				continue
+			}
+			stop := c.Start + c.Len
+			switch {
+			case c.GapScope:
+				stop = c.Start + c.Win
+			case c.FmtSub:
+				stop = c.Start + c.Adv
+			case c.Kind == "struct" || c.Kind == "array":
+				stop = c.Start
+			}
+			ext = max(ext, stop)
+			walk(c)
+		}
+	}
+	walk(sub)
+	return ext
 }
 
 // try runs body; false if it failed
@@ -355,6 +405,8 @@ func (g *gReal) exec(d *decode.D, n *gNode) {
 		d.LimitedFn(n.N, func(d *decode.D) { g.run(d, n.Body) })
 	case "Range":
 		d.RangeFn(n.Pos, n.N, func(d *decode.D) { g.run(d, n.Body) })
+	case "Format":
+		d.FieldFormat(n.Name, g.subGroup(n), nil)
 	case "FormatLen":
 		d.FieldFormatLen(n.Name, n.N, g.subGroup(n), nil)
 	case "FormatRange":
@@ -465,6 +517,13 @@ func (g *gGen) body(depth int, avail int64, inWindowBase int64) []*gNode {
 				out = append(out, &gNode{Op: "Fatal"})
 			}
 		default:
+			if depth > 0 {
+				// FieldFormat: the body starts with a plain field so that the sub-decode has a real child
+				body := append([]*gNode{{Op: "U", Name: g.name(), N: int64(1 + g.rng.Intn(16))}}, g.body(depth-1, max(avail-pos, 0), 0)...)
+				out = append(out, &gNode{Op: "Format", Name: g.name(), Arr: g.rng.Intn(4) == 0, Body: body})
+				pos += 16 // approximately
+				break
+			}
 			w := int64(8 * (1 + g.rng.Intn(4)))
 			out = append(out, &gNode{Op: "U", Name: g.name(), N: w})
 			pos += w
@@ -525,8 +584,8 @@ func gCompare(path string, e *eVal, v *decode.Value, issues *[]string, base int6
 		cbase := base
 		if e.IsRoot {
 			cbase = 0 // children live in the root's own buffer
-		} else if e.GapScope {
-			cbase = e.Start // a *Len/*Range sub-decode window starting at e.Start of the enclosing buffer
+		} else if e.GapScope || e.FmtSub {
+			cbase = e.Start // a sub-decode window starting at e.Start of the enclosing buffer
 		}
 		// the listed defect also shows as ORDER: inside a *Len/*Range sub-decode window a nested root sorts by its
 		// un-rebased start. If only the order differs and a nested root is among the children, compare by name and
